@@ -6,8 +6,9 @@
     H(left ++ right).  Because the nil slots always form a suffix of a level, a level is
     represented here by the list of its non-nil nodes, [pair_up] computes the next level and
     the root is reached when one node is left.  ([merkle_tree_array] below is the literal
-    array algorithm; both are compared with the Go code on every run, and MerkleProofs.v checks
-    by computation that they build the same hash expression for every size 0..40.)
+    array algorithm; both are compared with the Go code on every run, and
+    MerkleArray.v:merkle_root_array_eq proves they return the same root for every hash
+    function and every entry list.)
     No proofs here. *)
 From Coq Require Import NArith List.
 From Verif Require Import Common.Bytes.
